@@ -5,7 +5,7 @@ From Coq Require Import Permutation.
 From Verif Require Import lib.Wire c05.ModelLimiter c05.SpecLimiter c05.Proofs_Limiter gen.Consts_c05.
 From Verif Require Import c05.ModelWorker c05.SpecWorker c05.Proofs_Worker.
 From Verif Require Import c05.ModelRanker c05.SpecRanker c05.Proofs_Ranker.
-From Verif Require Import c05.Proofs_LimiterMon c05.Proofs_WorkerMon.
+From Verif Require Import c05.Proofs_LimiterMon c05.Proofs_WorkerMon c05.Proofs_LimiterOnce c05.Proofs_WorkerMon2.
 From Verif Require Import c05.ModelSync c05.SpecSync c05.Proofs_Sync c05.SpecDialPeer.
 From Verif Require Import c05.ModelComposite c05.SpecComposite c05.Proofs_Composite c05.Proofs_Composite2 c05.Proofs_Composite3.
 From Verif Require Import c05.Proofs_Composite4 c05.Proofs_Composite5 c05.Proofs_Composite6 c05.Proofs_CompositeMon.
@@ -57,20 +57,21 @@ Theorem c05_default_caps_wf : 1 <= ConcurrentFdDials /\ 1 <= DefaultPerPeerRateL
 Proof. vm_compute. split; discriminate. Qed.
 Print Assumptions c05_default_caps_wf.
 
-(* HEADLINE (limiter): the very monitor that judges the implementation's limiter
-   traces (SpecLimiter.monitor_lim: caps on counters and on dialFunc invocations, no
-   residue when nothing is in flight, every live job attempted) accepts the trace of
-   the model for EVERY sequence of harness stimuli (AddDialJob / cancel / clear /
-   return, each followed by the started goroutines running to their parking point).
-   _partial: the second function applied to implementation traces, once_lim ("a job's
-   dialFunc is invoked at most once"), is NOT covered: it needs unique job identities
-   and a disjointness invariant over the queues that the model does not carry (the
-   model never duplicates a job - tokens_balanced counts them - but identities are not
-   tracked); at the level the property speaks about it is c05_addr_handed_once. *)
-Theorem c05_limiter_monitor_holds_partial : forall fdl ppl xs, 1 <= fdl -> 1 <= ppl ->
-  monitor_lim fdl ppl (mkLmon [] []) 0 (lim_trace (init_lim fdl ppl) xs) = [].
-Proof. exact monitor_lim_holds_l. Qed.
-Print Assumptions c05_limiter_monitor_holds_partial.
+(* HEADLINE (limiter): the very functions that judge the implementation's limiter traces
+   (SpecLimiter.monitor_lim_case = monitor_lim, then once_lim) accept the trace of the model
+   for EVERY sequence of harness stimuli (AddDialJob / cancel / clear / return, each followed
+   by the started goroutines running to their parking point) whose AddDialJob identities are
+   pairwise distinct: caps on counters and on dialFunc invocations, no residue when nothing is
+   in flight, every live job attempted (no job is lost), and a job's dialFunc is invoked at
+   most once (job identities are never duplicated across the queues). *)
+Theorem c05_limiter_monitor_holds : forall fdl ppl xs, 1 <= fdl -> 1 <= ppl -> fresh_adds [] xs ->
+  let tr := lim_trace (init_lim fdl ppl) xs in
+  match monitor_lim fdl ppl (mkLmon [] []) 0 tr with [] => once_lim [] [] 0 tr | d => d end = [].
+Proof.
+  intros fdl ppl xs H1 H2 F tr. unfold tr. rewrite monitor_lim_holds_l by assumption.
+  apply once_lim_holds_l; try lia. exact F.
+Qed.
+Print Assumptions c05_limiter_monitor_holds.
 
 (* ---- dial worker loop ------------------------------------------------------------
    For EVERY finite sequence of loop iterations (request / dial timer / dial update /
@@ -120,23 +121,22 @@ Proof. exact all_eligible_attempted_l. Qed.
 Print Assumptions c05_all_eligible_attempted.
 
 (* HEADLINE (worker): the very monitor that judges the implementation's worker traces
-   (SpecWorker.monitor_w), run on the trace of the model for EVERY sequence of
-   well-formed harness stimuli (requests with fresh ids and repetition-free rankings,
-   clock advances, dial updates for dials in flight, back-off entries, inbound
-   connections, close; every due timer fires after each), never reports clause 1
-   (request answered twice), 2 (address handed to a transport twice) or 4 (request
-   unanswered at quiescence).
+   (SpecWorker.monitor_w), run on the trace of the model for EVERY sequence of well-formed
+   harness stimuli (requests with fresh ids and repetition-free rankings, clock advances, dial
+   updates for dials in flight, back-off entries, inbound connections, close; every due timer
+   fires after each), never reports clause 1 (request answered twice), 2 (address handed to a
+   transport twice), 4 (request unanswered at quiescence) or 5 (a candidate address neither
+   handed to a transport nor ever in back-off at quiescence without a connection).
    _partial: clause 3 (a response is justified: a connection only when one exists or a
-   candidate address succeeded, an error only when every candidate failed or was
-   refused) and clause 5 (every candidate attempted at quiescence) are judged on the
-   implementation's traces only.  They need a coupling between the monitor's
-   environment bookkeeping (failed / ever-in-back-off / connection flags) and the
-   statuses in trackedDials that is not built; the state-level counterpart of clause 5
-   is c05_all_eligible_attempted, clause 3 has no state-level counterpart here. *)
+   candidate address succeeded, an error only when every candidate failed or was refused) is
+   judged on the implementation's traces only.  What is missing is the provenance of each
+   response kind: invariants relating, per pending request, the candidates already removed
+   from pr.addrs to addresses the monitor knows as failed / ever in back-off, and DConn / DErr
+   statuses in trackedDials to the monitor's succ / failed sets. *)
 Theorem c05_worker_monitor_holds_partial : forall xs, wf_stims (init_env, init_w) xs ->
   forall d, monitor_w wmon0 0 (wtrace (init_env, init_w) xs) = d ->
-  d = [] \/ exists j c, d = [ERR_PROPERTY; j; c] /\ (c = 3 \/ c = 5).
-Proof. exact monitor_w_holds_partial_l. Qed.
+  d = [] \/ exists j, d = [ERR_PROPERTY; j; 3].
+Proof. exact monitor_w_holds5_l. Qed.
 Print Assumptions c05_worker_monitor_holds_partial.
 
 (* ---- dialSync ------------------------------------------------------------------------
@@ -302,17 +302,26 @@ Theorem c05_composite_no_lost_job : forall fdl ppl fd ls, 0 <= fdl -> 0 <= ppl -
 Proof. exact no_lost_job_l. Qed.
 Print Assumptions c05_composite_no_lost_job.
 
-(* HEADLINE (composite): the DialPeer monitor that judges the implementation's traces, run
-   on the trace of the composite model under the harness-level semantics (SpecComposite:
-   one stimulus, then every enabled step until nothing moves), never reports clause 4 (caps).
-   _partial: clauses 1-3, 5-8 are not proved over the model traces (they need a coupling of
-   the monitor's caller/dial bookkeeping with the composite state and a completeness argument
-   for the drain; their state-level counterparts are the theorems above), and clause 9
-   (every candidate attempted) has the state-level counterpart c05_composite_no_lost_job. *)
+(* HEADLINE (composite): the DialPeer monitor that judges the implementation's traces, run on
+   the trace of the composite model under the harness-level semantics (SpecComposite: one
+   stimulus, then every enabled step until nothing moves) for EVERY sequence of stimuli with
+   fresh caller ids, never reports clause 2 (a cancelled caller is released in the same step
+   with its context error) or clause 4 (caps).
+   _partial, exactly what remains: clause 1 (returns are of callers inside, at most once, a
+   connection only after some dial produced one) and 7/8 (caller count) need the coupling of the
+   monitor's wait/done lists with callers and c_rets as multisets plus the provenance of
+   RespConn; clause 3 (dial starts without repetition while any caller waits) needs the
+   coupling of monitor epochs with generations; clauses 5 (cancel ends no dial of the others),
+   6 (nothing left once all returned) and 9 (a caller waits only while a dial is in flight) need
+   a proof that the fuel-bounded drain (SpecComposite.ROUNDS rounds) reaches quiescence, which
+   does not hold for arbitrarily long chains; their state-level counterparts for every schedule
+   are c05_composite_leaving_caller_keeps_shared_dials, _no_leaked_active_dial and
+   _no_lost_job. *)
 Theorem c05_composite_monitor_accepts_partial : forall fdl ppl fds xs, 0 <= fdl -> 0 <= ppl ->
+  wf_kstims (init_denv, init_c fdl ppl fds) xs ->
   forall d, monitor_d fdl ppl (mkDmon [] [] [] false false) 0 (ctrace (init_denv, init_c fdl ppl fds) xs) = d ->
-  d = [] \/ exists j c, d = [ERR_PROPERTY; j; c] /\ c <> 4.
-Proof. exact monitor_d_accepts_partial_l. Qed.
+  d = [] \/ exists j c, d = [ERR_PROPERTY; j; c] /\ c <> 2 /\ c <> 4.
+Proof. exact monitor_d_accepts_partial24_l. Qed.
 Print Assumptions c05_composite_monitor_accepts_partial.
 
 (* ---- non-vacuity ----------------------------------------------------------------- *)
